@@ -11,7 +11,7 @@ base='''You are working in a scratch git worktree of the Rust crate `e57` (cry-i
 
 The file @DIR@/@ID@/PROPERTY.txt states a semantic property of the library that currently HOLDS on this tree. Read it, then read the source code it concerns. The tree contains about sixty recent `fix:` commits (`git log --oneline | head -70`); code added by them is as good a place for a regression as any.
 
-Task: produce TWO different, realistic source changes - the kind of regression a maintainer could plausibly introduce while refactoring, optimising or extending the code - that each BREAK this property, such that
+@TIME@Task: produce TWO different, realistic source changes - the kind of regression a maintainer could plausibly introduce while refactoring, optimising or extending the code - that each BREAK this property, such that
  (a) the crate still compiles,
  (b) the entire existing test suite still passes (run `cargo test --workspace --offline` in the worktree; all tests must pass with your change applied),
  (c) the breakage needs something SPECIFIC to manifest: a particular input shape, size or boundary, a multi-step sequence of API calls, a fault or crash at a particular point, an unusual but legal input, or two cooperating sites that each look fine alone. NOT something that ordinary use would expose at once.
@@ -31,6 +31,7 @@ extra={
 }
 for i in range(1,21):
     id_='C%02d'%i
+    if os.environ.get('IDS') and id_ not in os.environ['IDS'].split(): continue
     d=f'{DIR}/{id_}'
     subprocess.run(f'git -C /repo worktree add --detach {d} HEAD',shell=True,stdout=subprocess.DEVNULL,stderr=subprocess.DEVNULL)
     os.makedirs(d+'/out',exist_ok=True)
@@ -45,5 +46,5 @@ for i in range(1,21):
         done.append(first)
     txt="Mechanisms already produced in earlier rounds for this property (do not repeat these or close variants):\n"+"\n".join(f"({k+1}) {x}" for k,x in enumerate(done))+"\n"
     open(d+'/ALREADY_DONE.txt','w').write(txt)
-    open(d+'/PROMPT_FULL.txt','w').write(base.replace('@DIR@',DIR).replace('@N@',N).replace('@ID@',id_).replace('@EXTRA@',extra.get(id_,'')))
+    open(d+'/PROMPT_FULL.txt','w').write(base.replace('@DIR@',DIR).replace('@N@',N).replace('@ID@',id_).replace('@TIME@',os.environ.get('TIMEBOX','')).replace('@EXTRA@',extra.get(id_,'')))
 print('prepared', DIR)
